@@ -1,7 +1,7 @@
 #!/bin/bash
 # usage: seedeval.sh <seed-dir with patch.diff demo.diff meta.json> <property> [name]
 # Confirms a seeded change in a scratch worktree (suite passes with it; demo fails with it, passes without), then runs
-# the property's quick check on /repo with the patch applied and restores /repo.
+# the property's quick check on that worktree with the patch applied (VERIF_REPO); /repo itself is never touched.
 set -u
 SD=$1; PROP=$2; NAME=${3:-$PROP}
 EV=/tmp/scratch/ev
@@ -23,11 +23,11 @@ git apply -R $SD/patch.diff
 ( eval "$DEMO" ) > /tmp/scratch/demo_without.log 2>&1; RC_WITHOUT=$?
 echo "== demo without change: rc=$RC_WITHOUT  $(grep -E '^test result' /tmp/scratch/demo_without.log | tr '\n' ' ')"
 git checkout -q -- . && git clean -fdq -e target
-# (4) the check on /repo
+# (4) the check, on the scratch worktree with only the patch applied (never on /repo itself)
+git apply $SD/patch.diff
 cd /verif
-git -C /repo apply $SD/patch.diff || { echo "PATCH-DOES-NOT-APPLY-TO-REPO"; exit 2; }
-./check $PROP quick > /tmp/scratch/check_$NAME.log 2>&1; RC_CHECK=$?
-git -C /repo checkout -- . ; git -C /repo clean -fdq
+VERIF_REPO=$EV VERIF_OUT=/tmp/scratch/evout VERIF_EVIDENCE=/tmp/scratch/evev ./check $PROP quick > /tmp/scratch/check_$NAME.log 2>&1; RC_CHECK=$?
+git -C $EV checkout -q -- . ; git -C $EV clean -fdq -e target
 echo "== check $PROP rc=$RC_CHECK"
 grep -E "^(VIOLATION|KNOWN|OK|TOOL)" /tmp/scratch/check_$NAME.log | cut -c1-300
 echo "SUMMARY name=$NAME prop=$PROP suite=[$SUITE] demo_with=$RC_WITH demo_without=$RC_WITHOUT check_rc=$RC_CHECK"
